@@ -75,6 +75,38 @@ def cross_check_real(ctx, cases, impl, per_call=None):
                         {'real_stdout': out.decode('utf-8', 'replace')[:800], 'real_stderr': err.decode('utf-8', 'replace')[:300], 'driver': summarize(i)})
 
 
+def real_observation(ctx, c):
+    """run an app case (no injected faults) as a separate process of the untagged binary: (rc, stdout, stderr) or None"""
+    if not hasattr(c, 'argv') or getattr(c, 'read_fail', None) or getattr(c, 'sink_fail', None) is not None:
+        return None
+    files = dict(c.files)
+    home_config = None
+    if c.cfg and c.cfg.get('exists'):
+        if c.cfg['where'] == 'default':
+            home_config = c.config_text()
+        else:
+            files[c.cfg['path'].encode() if isinstance(c.cfg['path'], str) else c.cfg['path']] = c.config_text()
+    env_extra = {ENV_NAMES[k_]: (v if isinstance(v, str) else (v.decode('utf-8', 'surrogateescape') if isinstance(v, bytes) else str(v))) for k_, v in c.env.items()}
+    try:
+        return core.run_real_binary(ctx.real(), c.argv(), files, env_extra=env_extra, tz=c.tz, home_config=home_config)
+    except Exception:
+        return None
+
+
+def reproduced_by_program(ctx, c, obs):
+    """is the in-process observation of this case what the program prints when it is run on its own?  None: cannot tell"""
+    r = real_observation(ctx, c)
+    if r is None or obs is None:
+        return None
+    rc, out, err = r
+    crashed = rc < 0 or rc == 2 and (b'panic:' in err or b'goroutine ' in err)
+    if obs.get('status') in ('panic', 'crash'):
+        return crashed
+    if obs.get('status') not in ('ok', 'err'):
+        return None
+    return (not crashed) and ((rc == 0) == (obs.get('status') == 'ok')) and core.canon_out(out) == out_of(obs)
+
+
 def summarize(o):
     d = dict(o)
     for k in ('out', 'text', 'raw', 'header'):
